@@ -87,7 +87,7 @@ PROPS['C01'] = dict(level='model_checking',
             [SEQ('never_started', 'C04_events.cpp', 'h_never_started', opts=dict(max_rec=3), desc='connected but never started: no signal, no child started'),
              H('wa_race_min', 'C01_race2.cpp', ['h_complete1', 'h_stop'], 26, setup='h_setup_wa', final='h_final_wa', desc='when_all: last child completing races an external stop request (real when_all atomics; minimal harness stop source for the outer token)'),
              H('sw_race_min', 'C01_race2.cpp', ['h_complete0', 'h_stop'], 26, setup='h_setup_sw', final='h_final_sw', desc='stop_when: source completing races an external stop request'),
-             H('wa_last_child_vs_stop', 'C01_race.cpp', ['h_complete1', 'h_stop'], 34, setup='h_setup_wa', final='h_final_wa', tier='deep', timeout=3000, preempt=3, desc='when_all: last child completing races an external stop request (real atomics)')])
+             H('wa_last_child_vs_stop', 'C01_race.cpp', ['h_complete1', 'h_stop'], 34, setup='h_setup_wa', final='h_final_wa', tier='thorough', timeout=5400, preempt=3, desc='when_all: last child completing races an external stop request (real atomics)')])
 
 PROPS['C17'] = dict(level='model_checking',
   bounds='find_if(par): symbolic range length 0..600 over a position iterator, one symbolic chunk index per run (single-index bulk scheduler); loops bounded by max_visits',
@@ -191,7 +191,7 @@ LATCH_DEEP = {(2, 1, 1, 0), (2, 1, 2, 0), (5, 6, 2, 0), (1, 1, 1, 0)}
 PROPS['C16']['harnesses'] += [H('latch_%d_%d_n%d_l%d' % (a, b, n, l), 'C16_latch.cpp', ['h_t0', 'h_t1'], (48 if (a, b, n, l) == (0, 1, 1, 0) else 40), tier=('quick' if (a, b, n, l) in LATCH_QUICK else 'deep' if (a, b, n, l) in LATCH_DEEP else 'thorough'), timeout=2400,
    opts=dict(params=[a, b, n, l], max_visits=40, feas_seq=1, feas_at=3), desc='atomic_intrusive_list latch mode (v2 manual reset event waiter list), %d queued, %s: %s' % (n, 'initially set' if l else 'initially unset', d)) for a, b, n, l, d in LATCH_PAIRS]
 PROPS['C16']['harnesses'] += [H('latch_%d_%d_n%d_l%d_p2' % (a, b, n, l), 'C16_latch.cpp', ['h_t0', 'h_t1'], 56, tier='thorough', timeout=2400, preempt=2,
-   opts=dict(params=[a, b, n, l], max_visits=40, feas_seq=1, feas_at=3), desc='as latch_%d_%d_n%d_l%d but only schedules with at most 2 preemptions: %s' % (a, b, n, l, d)) for a, b, n, l, d in LATCH_PAIRS if (a, b, n, l) in LATCH_DEEP]
+   opts=dict(params=[a, b, n, l], max_visits=40, feas_seq=1, feas_at=3, lazy=1, prune=0), desc='as latch_%d_%d_n%d_l%d but only schedules with at most 2 preemptions: %s' % (a, b, n, l, d)) for a, b, n, l, d in LATCH_PAIRS if (a, b, n, l) in LATCH_DEEP]
 def EP(name, params, desc, tier='quick', **o):
     return SEQ('epoll_' + name, 'C07_epoll.cpp', 'h_epoll', exc=True, tier=tier, no_native=True, opts=dict(params=params, clock_choices=[0, 30, 60], max_visits=60, max_rec=8, feas_br=1, feas_max=20000, prune=1, prune_at=2, prune_budget=300, **o), desc='io_epoll_context over a stubbed kernel: ' + desc)
 EPOLL = [EP('timer', [1, 0, 0, 0, 0, 0, 0], 'one timer started from another thread, never cancelled')] + \
@@ -213,6 +213,12 @@ PROPS['C10']['harnesses'] += [H('task_stop_race_o%d' % o, 'C10_race.cpp', ['h_co
 PROPS['C20']['harnesses'] += [H('handoff_race_' + cfgname('c++20', defs), 'C20_race.cpp', ['h_start', 'h_resume'], (100 if 'UNDEBUG' in defs else 60), std='c++20', exc=True, defs=defs, extra=['$REPO/source/async_stack.cpp'], timeout=(7200 if 'UNDEBUG' in defs else 900), tier=('deep' if 'UNDEBUG' in defs else 'quick'),
    opts=dict(max_rec=8, max_visits=60), desc='task<int> awaiting a bool-await_suspend awaitable that is resumed on another thread while the suspending thread is still inside await_suspend, ' + ' '.join(defs)) for defs in (['UNDEBUG'], ['NDEBUG'])]
 PROPS['C10']['harnesses'] += [h for h in PROPS['C20']['harnesses'] if h['name'].startswith('handoff_race')]
+PROPS['C19']['harnesses'] += [
+  H('cancellable_complete_vs_stop', 'C19_cancellable.cpp', ['h_complete', 'h_stop'], 30, setup='h_setup_started', opts=dict(params=[0, 0]), desc='cancellable: started operation; try_complete on one thread races a stop request on another'),
+  H('cancellable_start_complete_vs_stop', 'C19_cancellable.cpp', ['h_start_then_complete', 'h_stop'], 40, opts=dict(params=[0, 0]), desc='cancellable: start() then natural completion on one thread, stop request on another (stop may land before, inside or after start)'),
+  H('cancellable_sync_complete_vs_stop', 'C19_cancellable.cpp', ['h_start_then_complete', 'h_stop'], 40, opts=dict(params=[0, 1]), desc='cancellable: the raw operation completes synchronously inside start() while a stop request arrives'),
+  H('cancellable_start_vs_complete', 'C19_cancellable.cpp', ['h_start', 'h_complete_when_started'], 50, opts=dict(params=[2, 0]), desc='cancellable: stop requested before start; start() races the natural completion from another thread'),
+  H('cancellable_start_vs_complete_vs_stop', 'C19_cancellable.cpp', ['h_start', 'h_complete_when_started', 'h_stop'], 44, tier='thorough', timeout=3000, opts=dict(params=[0, 0]), desc='cancellable: start(), natural completion and stop request on three threads')]
 # cross-registration: harnesses whose assertions also decide clauses of other properties
 PROPS['C04']['harnesses'] += [h for h in PROPS['C01']['harnesses'] if h['name'] in ('wa_race_min', 'sw_race_min')]
 PROPS['C05']['harnesses'] += [h for h in PROPS['C04']['harnesses'] if h['name'] == 'wa_inline_cancel'] + \
